@@ -13,6 +13,27 @@ d, h, info = extract.ensure_facts()
 p = ir.Program(d)
 fns = sorted(set(flow.short(b.name) for b in p.lib_bodies.values() if b.kind in ("Fn", "AssocFn")))
 consts = sorted(set(flow.short(c["name"]) for c in p.consts.values()))
-json.dump({"_comment": "functions and constants present on the pinned tree (pretty def paths, generics stripped)", "fns": fns, "consts": consts},
+sigs = {}
+adt_fields = {}
+async_fns = []
+instrumented = []
+for c in p.crates:
+    if c.is_test:
+        continue
+    for f in c.fns:
+        sigs[f["key"]] = f.get("sig", "")
+    for a in c.adts:
+        if a.get("kind") == "Struct" and a.get("variants"):
+            adt_fields[a["key"]] = [[f["name"], f["ty"]] for f in a["variants"][0].get("fields", [])]
+keys = set(p.lib_bodies)
+for k, b in sorted(p.lib_bodies.items()):
+    if b.kind in ("Fn", "AssocFn") and (k + "::{closure#0}") in keys and p.lib_bodies[k + "::{closure#0}"].coroutine:
+        async_fns.append(k)
+        inner = k + "::{closure#0}::{closure#0}"
+        if inner in keys and p.lib_bodies[inner].coroutine and "nstrument" in json.dumps(p.lib_bodies[k + "::{closure#0}"].j["blocks"]):
+            instrumented.append(k)
+json.dump({"_comment": "functions and constants present on the pinned tree (pretty def paths, generics stripped); signatures, struct fields and "
+                       "which async fns are #[instrument]ed, used to undo pure renamings (pv/canon.py)",
+           "fns": fns, "consts": consts, "sigs": sigs, "adt_fields": adt_fields, "async_fns": async_fns, "instrumented": instrumented},
           open(os.path.join(os.path.dirname(os.path.dirname(os.path.abspath(__file__))), "spec", "pinned.json"), "w"), indent=0)
 print(len(fns), "fns", len(consts), "consts")
